@@ -149,6 +149,10 @@ def report(prop, tier, seed, results, extra, trusted, t0, rebaseline, verbose):
         for o in r['obligations']:
             o = dict(o)
             o['function'] = r['target']
+            import re as _re
+            m_ = _re.search(r'@(C[0-9]{2,3})', o['name'])
+            if m_ and m_.group(1) != prop:
+                continue          # a clause that serves another property only
             obligations.append(o)
     for o in extra:
         obligations.append(o)
